@@ -4,6 +4,7 @@ import (
 	"fmt"
 	"os"
 	"strings"
+	"sync"
 	"time"
 
 	"github.com/rs/zerolog"
@@ -141,6 +142,53 @@ func (c *concInst) Check(res *mcrt.Result) []explore.Violation {
 	return vs
 }
 
+// racePass: the same derivation/logging steps on real goroutines under -race (mcrt passive).
+func racePass() {
+	runs := 0
+	for _, variant := range []string{"plain", "hooked"} {
+		for rep := 0; rep < 300; rep++ {
+			var mu sync.Mutex
+			w, w2 := &lockedRec{mu: &mu}, &lockedRec{mu: &mu}
+			parent := zerolog.New(w).With().Str("p", "parent").Logger()
+			if variant == "hooked" {
+				parent = parent.Hook(tagHook{100}).Hook(tagHook{101}).Hook(tagHook{102})
+			}
+			var wg sync.WaitGroup
+			for t := 0; t < 3; t++ {
+				t := t
+				wg.Add(1)
+				go func() {
+					defer wg.Done()
+					child := parent.With().Int("c", t).Logger()
+					hooked := child.Hook(tagHook{t})
+					hooked.Info().Str("who", "hooked").Msg("m")
+					child.UpdateContext(func(cx zerolog.Context) zerolog.Context { return cx.Int("u", t) })
+					child.Warn().Str("who", "child").Msg("m")
+					out := parent.Output(w2)
+					out.Error().Str("who", "out").Msg("m")
+					parent.Info().Dict("d", zerolog.Dict().Int("t", t)).Msg("m")
+				}()
+			}
+			wg.Wait()
+			runs++
+		}
+	}
+	fmt.Printf("racepass runs=%d\n", runs)
+	os.Exit(0)
+}
+
+type lockedRec struct {
+	mu *sync.Mutex
+	n  int
+}
+
+func (l *lockedRec) Write(p []byte) (int, error) {
+	l.mu.Lock()
+	l.n++
+	l.mu.Unlock()
+	return len(p), nil
+}
+
 func concFactory(name string) *explore.Scenario {
 	var n int
 	parts := strings.SplitN(name, "/", 2)
@@ -194,4 +242,11 @@ func concPart(r *seq.Run, tier string) {
 	r.Count("concurrent_executions", execs)
 	out := drv.Classify("C05", concFactory, stats, 20000)
 	r.AddExternal(out.Violations)
+	runs, races, note, report, err := drv.RacePass("VERIF_RACE_BIN", "VERIF_RACEPASS")
+	if err != nil {
+		fmt.Println("INFRA:", err)
+		os.Exit(2)
+	}
+	r.Extra["race_pass"] = map[string]interface{}{"note": note, "runs": runs, "races": races, "technique": "free-running goroutines under the Go race detector; dynamic analysis, not part of the exhaustive claim"}
+	r.AddExternal(drv.ReportRace("C05", races, report))
 }
